@@ -45,5 +45,79 @@ Qed.
 (* ~x on an arbitrary integer, reduced, is the 32-bit complement of the reduced x *)
 Lemma lnot_mod a : Z.lnot a mod W = wnot (a mod W).
 Proof.
-  unfold wnot. rewrite <- Z.add_opp_r, Z.opp_lnot...
+  unfold wnot, Z.lnot, W. 
+  pose proof (Z.div_mod a 4294967296 ltac:(lia)) as H1.
+  pose proof (Z.mod_pos_bound a 4294967296 ltac:(lia)) as H2.
+  symmetry. apply Z.mod_unique_pos with (q := - (a / 4294967296) - 1); lia.
+Qed.
+
+Lemma add_mod a b : (a + b) mod W = wadd (a mod W) (b mod W).
+Proof. unfold wadd. apply Z.add_mod. discriminate. Qed.
+
+Lemma mul_mod a b : (a * b) mod W = wmul (a mod W) (b mod W).
+Proof. unfold wmul. apply Z.mul_mod. discriminate. Qed.
+
+Lemma mod_mod_W a : (a mod W) mod W = a mod W.
+Proof. apply Z.mod_mod. discriminate. Qed.
+
+Lemma wadd_range a b : 0 <= wadd a b < W.
+Proof. apply mod_W_range. Qed.
+
+(* x << i *)
+Lemma shiftl_mod a i : 0 <= i -> Z.shiftl a i mod W = ((a mod W) * 2 ^ i) mod W.
+Proof.
+  intros Hi. rewrite Z.shiftl_mul_pow2 by exact Hi.
+  rewrite Z.mul_mod_idemp_l by discriminate. reflexivity.
+Qed.
+
+(* a | (b << n) when a fits below bit n *)
+Lemma land_low_shiftl a b n : 0 <= n -> 0 <= a < 2 ^ n -> Z.land a (Z.shiftl b n) = 0.
+Proof.
+  intros Hn Ha. apply Z.bits_inj'. intros k Hk.
+  rewrite Z.land_spec, Z.bits_0.
+  destruct (Z.lt_ge_cases k n) as [L|G].
+  - rewrite (Z.shiftl_spec_low b n k L). apply andb_false_r.
+  - assert (Z.testbit a k = false) as ->; [|reflexivity].
+    destruct (Z.eq_dec a 0) as [->|Hz]; [apply Z.bits_0|].
+    apply Z.bits_above_log2; [lia|].
+    assert (Z.log2 a < n); [|lia]. apply Z.log2_lt_pow2; lia.
+Qed.
+
+Lemma lor_low_shiftl a b n : 0 <= n -> 0 <= a < 2 ^ n -> Z.lor a (Z.shiftl b n) = a + b * 2 ^ n.
+Proof.
+  intros Hn Ha. rewrite <- Z.lxor_lor by (apply land_low_shiftl; assumption).
+  rewrite <- Z.add_nocarry_lxor by (apply land_low_shiftl; assumption).
+  rewrite Z.shiftl_mul_pow2 by exact Hn. reflexivity.
+Qed.
+
+Lemma lxor_low_shiftl a b n : 0 <= n -> 0 <= a < 2 ^ n -> Z.lxor a (Z.shiftl b n) = a + b * 2 ^ n.
+Proof.
+  intros Hn Ha.
+  rewrite <- Z.add_nocarry_lxor by (apply land_low_shiftl; assumption).
+  rewrite Z.shiftl_mul_pow2 by exact Hn. reflexivity.
+Qed.
+
+(* the rotation idiom  (x << i) | ((x & 0xFFFFFFFF) >> (32 - i))  : its low 32 bits are the rotation of the
+   low 32 bits of x; x itself is an arbitrary integer *)
+Lemma rol_idiom_mod x i : 0 <= i <= 32 ->
+  Z.lor (Z.shiftl x i) (Z.shiftr (Z.land x 4294967295) (32 - i)) mod W = rotl i (x mod W).
+Proof.
+  intros Hi. rewrite land_M32. unfold rotl.
+  set (w := x mod W). assert (Hw : 0 <= w < W) by apply mod_W_range.
+  rewrite lor_mod, shiftl_mod by lia. fold w.
+  rewrite Z.shiftr_div_pow2 by lia.
+  assert (Hlow : 0 <= w / 2 ^ (32 - i) < 2 ^ i).
+  { split; [apply Z.div_pos; [lia| apply Z.pow_pos_nonneg; lia]|].
+    apply Z.div_lt_upper_bound; [apply Z.pow_pos_nonneg; lia|].
+    rewrite <- Z.pow_add_r by lia. replace (32 - i + i) with 32 by lia. exact (proj2 Hw). }
+  assert (Hle : 2 ^ i <= W).
+  { rewrite W_pow. apply Z.pow_le_mono_r; lia. }
+  rewrite (Z.mod_small (w / 2 ^ (32 - i)) W) by lia.
+  (* (w * 2^i) mod 2^32 = (w mod 2^(32-i)) * 2^i *)
+  assert (Hhi : (w * 2 ^ i) mod W = Z.shiftl (w mod 2 ^ (32 - i)) i).
+  { rewrite Z.shiftl_mul_pow2 by lia. rewrite W_pow.
+    replace (2 ^ 32) with (2 ^ (32 - i) * 2 ^ i) by (rewrite <- Z.pow_add_r by lia; f_equal; lia).
+    rewrite Z.mul_mod_distr_r; [reflexivity| |]; apply Z.pow_nonzero; lia. }
+  rewrite Hhi. rewrite Z.lor_comm. rewrite lor_low_shiftl by lia.
+  rewrite Z.shiftl_mul_pow2 by lia. lia.
 Qed.
